@@ -209,7 +209,10 @@ def b_multipoint(ctx):
             else:
                 for col in COLS + ['S_a', 'S_m', 'epsilon_a', 'epsilon_m', 'R']:
                     a, b = np.asarray(sub[col], dtype=float), np.asarray(cs[col], dtype=float)
-                    if not np.allclose(a, b, rtol=5e-4, atol=1e-9, equal_nan=True):
+                    # mean values are differences of two values carrying the solver tolerance: absolute tolerance on the scale of the column's family
+                    # (a first version used atol=1e-9 and alarmed on S_m = 0.0 vs 7e-9 with the Seeger-Beste law, thorough tier)
+                    scale = float(np.nanmax(np.abs(np.asarray(cs['S_max' if col.startswith('S') else ('epsilon_max' if col.startswith('eps') else col)], dtype=float)))) if col != 'R' else 0.0
+                    if not np.allclose(a, b, rtol=5e-4, atol=1e-9 + 1e-6 * scale, equal_nan=True):
                         bad = f'column {col}: batch {a.tolist()} vs alone {b.tolist()}'
                         break
                 for col in ('is_closed_hysteresis', 'run_index', 'is_zero_mean_stress_and_strain'):
